@@ -1012,4 +1012,163 @@ theorem fillPos_isSome_iff (ps : List (Name × Option Val)) (vs : List Val) (kws
           simp only [this, Option.isSome_map, Option.isSome_some, true_or, true_and]
           exact ih0
 
+/-! ### builder histories -/
+
+theorem dset_of_not_mem {α : Type} {z : Name} (v : α) {l : List (Name × α)} (h : z ∉ l.map Prod.fst) :
+    dset z v l = l ++ [(z, v)] := by
+  induction l with
+  | nil => rfl
+  | cons p r ih =>
+    obtain ⟨k, v'⟩ := p
+    simp only [List.map_cons, List.mem_cons, not_or] at h
+    rw [dset, if_neg (fun e => h.1 e.symm), ih h.2]; rfl
+
+/-- adding a keyword-only parameter: appended after the keyword-only parameters -/
+theorem addArg_kwonly {fb : FB} (wf : WfFB fb) {z : Name} (d : Option Val) (hz : z ∉ fb.args)
+    (hk : z ∉ fb.kwonlyargs) :
+    ∃ fb', fb.addArg z d true = .ok fb' ∧ WfFB fb' ∧
+      fb'.posSig = fb.posSig ∧ fb'.kwSig = fb.kwSig ++ [(z, d)] ∧ fb'.rest = fb.rest := by
+  have hzk : z ∉ fb.kwonlydefaults.map Prod.fst := fun h => hk (wf.kwd z h)
+  let kd' : List (Name × Val) := match d with
+    | some v => dset z v fb.kwonlydefaults
+    | none => fb.kwonlydefaults
+  have hkd' : kd' = fb.kwonlydefaults ++ (match d with | some v => [(z, v)] | none => []) := by
+    cases d with
+    | none => simp [kd']
+    | some v => simp only [kd']; exact dset_of_not_mem v hzk
+  refine ⟨{ fb with kwonlyargs := fb.kwonlyargs ++ [z], kwonlydefaults := kd' },
+    by unfold FB.addArg; rw [if_neg hz, if_neg hk]; rfl, ?_, rfl, ?_, rfl⟩
+  · refine ⟨?_, wf.len, ?_, ?_⟩
+    · show (fb.args ++ (fb.kwonlyargs ++ [z])).Nodup
+      rw [← List.append_assoc]
+      have hperm : ((fb.args ++ fb.kwonlyargs) ++ [z]).Perm (z :: (fb.args ++ fb.kwonlyargs)) := by
+        have := @List.perm_middle _ z (fb.args ++ fb.kwonlyargs) []
+        simpa using this
+      rw [hperm.nodup_iff, List.nodup_cons]
+      exact ⟨by simp [hz, hk], wf.nodup⟩
+    · intro k hkk
+      show k ∈ fb.kwonlyargs ++ [z]
+      have hkk' : k ∈ kd'.map Prod.fst := hkk
+      rw [hkd', List.map_append, List.mem_append] at hkk'
+      rcases hkk' with h | h
+      · exact List.mem_append_left _ (wf.kwd k h)
+      · cases d with
+        | none => simp at h
+        | some v => simp at h; subst h; simp
+    · show (kd'.map Prod.fst).Nodup
+      rw [hkd', List.map_append, List.nodup_append]
+      refine ⟨wf.kwdNodup, ?_, ?_⟩
+      · cases d <;> simp
+      · intro a ha b hb
+        cases d with
+        | none => simp at hb
+        | some v =>
+          simp at hb; subst hb
+          exact fun e => hzk (e ▸ ha)
+  · show kwAttach (fb.kwonlyargs ++ [z]) kd' = kwAttach fb.kwonlyargs fb.kwonlydefaults ++ [(z, d)]
+    unfold kwAttach
+    rw [List.map_append]
+    congr 1
+    · apply List.map_congr_left
+      intro k hkk
+      have hne : k ≠ z := fun e => hk (e ▸ hkk)
+      rw [hkd', get?_append]
+      have : get? k (match d with | some v => [(z, v)] | none => ([] : List (Name × Val))) = none := by
+        cases d with
+        | none => rfl
+        | some v => rw [get?_cons, if_neg (fun e => hne e.symm)]; rfl
+      rw [this]; cases get? k fb.kwonlydefaults <;> rfl
+    · simp only [List.map_cons, List.map_nil, List.cons.injEq, Prod.mk.injEq, true_and, and_true]
+      rw [hkd', get?_append, get?_eq_none_of_not_mem hzk]
+      cases d with
+      | none => rfl
+      | some v => simp [get?_cons]
+
+theorem get?_append_filter_keyNe {α : Type} {x p : Name} (A B : List (Name × α)) (h : p ≠ x) :
+    get? p (A.filter (keyNe x) ++ B.filter (keyNe x)) = get? p (A ++ B) := by
+  rw [get?_append, get?_append, get?_filter_keyNe _ h, get?_filter_keyNe _ h]
+
+/-- one mutator call: the builder stays well formed and every parameter other than the one
+    named in the call keeps its default -/
+theorem step_spec {fb fb' : FB} (wf : WfFB fb) (op : BOp) (h : fb.step op = .ok fb') :
+    WfFB fb' ∧ fb'.rest = fb.rest ∧
+      ∀ p, p ≠ op.name → get? p (fb'.posSig ++ fb'.kwSig) = get? p (fb.posSig ++ fb.kwSig) := by
+  cases op with
+  | remove x =>
+    simp only [FB.step] at h
+    by_cases hx : x ∈ fb.args
+    · obtain ⟨fb1, hr, wf1, hp, hk, hrest⟩ := removeArg_pos wf hx
+      rw [hr] at h; cases h
+      exact ⟨wf1, hrest, fun p hp' => by rw [hp, hk]; exact get?_append_filter_keyNe _ _ hp'⟩
+    · by_cases hk : x ∈ fb.kwonlyargs
+      · obtain ⟨fb1, hr, wf1, hp, hk, hrest⟩ := removeArg_kw wf hx hk
+        rw [hr] at h; cases h
+        exact ⟨wf1, hrest, fun p hp' => by rw [hp, hk]; exact get?_append_filter_keyNe _ _ hp'⟩
+      · rw [removeArg_missing hx hk] at h; cases h
+  | add z d kwonly =>
+    simp only [FB.step] at h
+    by_cases hz : z ∈ fb.args ∨ z ∈ fb.kwonlyargs
+    · have : fb.addArg z d kwonly = .error .existingArgument := by
+        unfold FB.addArg
+        by_cases hz1 : z ∈ fb.args
+        · rw [if_pos hz1]
+        · rw [if_neg hz1, if_pos (hz.resolve_left hz1)]
+      rw [this] at h; cases h
+    · have hz1 : z ∉ fb.args := fun h => hz (Or.inl h)
+      have hz2 : z ∉ fb.kwonlyargs := fun h => hz (Or.inr h)
+      cases kwonly with
+      | true =>
+        obtain ⟨fb1, hr, wf1, hp, hk, hrest⟩ := addArg_kwonly wf d hz1 hz2
+        rw [hr] at h; cases h
+        refine ⟨wf1, hrest, fun p hp' => ?_⟩
+        rw [hp, hk, ← List.append_assoc, get?_append]
+        have : get? p [((z, d) : Name × Option Val)] = none := by
+          rw [get?_cons, if_neg (fun e => hp' e.symm)]; rfl
+        rw [this]; cases get? p (fb.posSig ++ fb.kwSig) <;> rfl
+      | false =>
+        cases d with
+        | none =>
+          obtain ⟨fb1, pre, post, hr, wf1, hp0, hp1, _, _, hk, hrest⟩ := addArg_none wf hz1 hz2
+          rw [hr] at h; cases h
+          refine ⟨wf1, hrest, fun p hp' => ?_⟩
+          have hp'' : p ≠ z := hp'
+          rw [hp1, hp0, hk, get?_append, get?_append (l₁ := pre ++ post), get?_insert_ne _ _ _ hp'']
+        | some v =>
+          obtain ⟨fb1, hr, wf1, hp1, hk, hrest⟩ := addArg_some wf v hz1 hz2
+          rw [hr] at h; cases h
+          refine ⟨wf1, hrest, fun p hp' => ?_⟩
+          rw [hp1, hk, get?_append, get?_append, get?_append]
+          have : get? p [((z, some v) : Name × Option Val)] = none := by
+            rw [get?_cons, if_neg (fun e => hp' e.symm)]; rfl
+          rw [this]; cases get? p fb.posSig <;> rfl
+
+theorem run_spec {fb fb' : FB} (wf : WfFB fb) (ops : List BOp) (h : fb.run ops = .ok fb') :
+    WfFB fb' ∧ fb'.rest = fb.rest ∧
+      ∀ p, p ∉ ops.map BOp.name → get? p (fb'.posSig ++ fb'.kwSig) = get? p (fb.posSig ++ fb.kwSig) := by
+  induction ops generalizing fb with
+  | nil => simp only [FB.run, Except.ok.injEq] at h; subst h; exact ⟨wf, rfl, fun _ _ => rfl⟩
+  | cons op ops ih =>
+    cases hs : fb.step op with
+    | error e => simp only [FB.run, hs] at h; cases h
+    | ok fb1 =>
+      simp only [FB.run, hs] at h
+      obtain ⟨wf1, hrest1, hd1⟩ := step_spec wf op hs
+      obtain ⟨wf', hrest', hd'⟩ := ih wf1 h
+      refine ⟨wf', hrest'.trans hrest1, fun p hp => ?_⟩
+      simp only [List.map_cons, List.mem_cons, not_or] at hp
+      rw [hd' p hp.2, hd1 p hp.1]
+
+theorem buildHistory_inv {f : Func} {ops : List BOp} {ident : Nat} {w : Func}
+    (h : buildHistory f ops ident = .ok w) :
+    ∃ fb, (FB.fromFunc f).run ops = .ok fb ∧ fb.names.Nodup ∧ w = fb.toFunc ident none := by
+  unfold buildHistory at h
+  cases hr : (FB.fromFunc f).run ops with
+  | error e => simp [hr] at h
+  | ok fb =>
+    simp only [hr] at h
+    rw [getFunc_invocation] at h
+    by_cases hn : fb.names.Nodup
+    · rw [if_pos hn] at h; exact ⟨fb, rfl, hn, (Except.ok.inj h).symm⟩
+    · rw [if_neg hn] at h; cases h
+
 end C13
